@@ -368,13 +368,14 @@ class ChoiceList(BaseColumnType):
       # If it's a string that looks like JSON, try to parse it as such.
       if value.startswith('['):
         try:
-          return tuple(str(item) for item in json.loads(value))
+          # An empty list is represented as None, as above.
+          return tuple(str(item) for item in json.loads(value)) or None
         except Exception:
           pass
       return value
     else:
       # Accepts other kinds of iterables; if that doesn't work, fail the conversion too.
-      return tuple(str(item) for item in value)
+      return tuple(str(item) for item in value) or None
 
   @classmethod
   def is_right_type(cls, value):
@@ -513,9 +514,9 @@ class ReferenceList(BaseColumnType):
       ):
       row_ids_flat_list = [rec.id for rset in value for rec in rset]
       row_ids_unique_list = list(OrderedDict((el, None) for el in row_ids_flat_list).keys())
-      return row_ids_unique_list
+      return row_ids_unique_list or None
 
-    return [Reference.do_convert(val) for val in value]
+    return [Reference.do_convert(val) for val in value] or None
 
   @classmethod
   def is_right_type(cls, value):
